@@ -470,18 +470,18 @@ def positive_number_mechanism(chk, drv, schemas, mech, vz, vx):
                 pending.append((s, out, rec, o))
     reqs = []
     for s, out, rec, o in pending:
-        for a, b in (("repaired", "repaired"), ("asFound", "repaired"), ("repaired", "asFound")):
+        for a, b in (("repaired", "repaired"), ("asFound", "repaired"), ("repaired", "asFound"), ("asFound", "asFound")):
             reqs.append(("posnum", {"schema": enc(s), "orc": wire_orc(rec), "vz": a, "vx": b}))
     outs = iter(drv.batch(reqs))
     for s, out, rec, o in pending:
-        m_rr, m_ar, m_ra = next(outs), next(outs), next(outs)
-        sig = number_signature(s, o, m_rr, m_ar, m_ra) or "C03:_positive_number:invalid-positive-value"
+        m_rr, m_ar, m_ra, m_aa = next(outs), next(outs), next(outs), next(outs)
+        sig = number_signature(s, o, m_rr, m_ar, m_ra, m_aa) or "C03:_positive_number:invalid-positive-value"
         chk.violation(sig, f"_positive_number labels {o['value']!r} ('{o['text']}') positive but it violates the schema",
                       {"mechanism": "positive_number", "schema": s, "value": o["value"], "description": o["text"],
                        "impl": brief(out)})
 
 
-def number_signature(schema, o, m_rr, m_ar, m_ra):
+def number_signature(schema, o, m_rr, m_ar, m_ra, m_aa=None):
     """attribute an invalid positive number to F6 / F7 / the unsatisfiable-schema case with the single-site variants
     of the model ((zero, excl) = (repaired, repaired), (asFound, repaired), (repaired, asFound))"""
     def has(m):
@@ -492,7 +492,9 @@ def number_signature(schema, o, m_rr, m_ar, m_ra):
     if not has(m_rr):
         if has(m_ar) and not has(m_ra):
             return KF_ZERO
-        return KF_EXCL
+        if has(m_ra) or (m_aa is not None and has(m_aa)):
+            return KF_EXCL
+        return None          # no variant of the model emits it: not one of the catalogued numeric defects
     try:
         if not int_satisfiable(schema):
             return KF_UNSAT
@@ -1021,7 +1023,7 @@ def resolve_cover_violations(chk, drv, pending):
         if oo["desc"] in ("minimum-value", "maximum-value", "near-boundary-number") and isinstance(sub, dict) \
                 and isinstance(oo["value"], (int, float)) and not isinstance(oo["value"], bool):
             try:
-                for a, b in (("repaired", "repaired"), ("asFound", "repaired"), ("repaired", "asFound")):
+                for a, b in (("repaired", "repaired"), ("asFound", "repaired"), ("repaired", "asFound"), ("asFound", "asFound")):
                     reqs.append(("posnum", {"schema": enc(sub), "orc": [{"val": 0}], "vz": a, "vx": b}))
                 numeric.append((idx, sub, oo))
             except Unmodelled:
@@ -1029,8 +1031,8 @@ def resolve_cover_violations(chk, drv, pending):
     outs = iter(drv.batch(reqs))
     sigs = {}
     for idx, sub, oo in numeric:
-        m_rr, m_ar, m_ra = next(outs), next(outs), next(outs)
-        sigs[idx] = number_signature(sub, oo, m_rr, m_ar, m_ra)
+        m_rr, m_ar, m_ra, m_aa = next(outs), next(outs), next(outs), next(outs)
+        sigs[idx] = number_signature(sub, oo, m_rr, m_ar, m_ra, m_aa)
     for idx, (schema, mk, loc, o, orc, rec) in enumerate(pending):
         sig = sigs.get(idx)
         if sig is None:
